@@ -2006,6 +2006,22 @@ theorem hostname_bracketed {nl : Str} (hok : netlocOk nl = true) (hui : userinfo
     rw [he] at h1; rw [bracketedHostOk_nil] at h1; cases h1
   · rfl
 
+/-- a netloc without any bracket: nothing to reject, nothing to keep -/
+theorem no_bracket_facts {nl : Str} (hb : '[' ∉ nl ∧ ']' ∉ nl) :
+    userinfoBrackets nl = false ∧ bracketedHost nl = false := by
+  have hsl := splitLast_spec nl '@'
+  constructor
+  · unfold userinfoBrackets
+    cases hui : (splitLast nl '@').1 with
+    | none => simp
+    | some ui =>
+      have hsub : ui ⊆ nl := by intro x hx; rw [hsl.1 ui hui]; simp [hx]
+      simp only [Option.getD_some, Bool.or_eq_false_iff]
+      exact ⟨contains_false_of_not_mem (fun hm => hb.1 (hsub hm)),
+        contains_false_of_not_mem (fun hm => hb.2 (hsub hm))⟩
+  · unfold bracketedHost
+    exact contains_false_of_not_mem (fun hm => hb.1 (hostinfoStr_subset nl hm))
+
 /-! ## re-parsing the printed result -/
 
 /-- what the parser reads from the printed result, in terms of the printed netloc and the
@@ -2084,6 +2100,14 @@ theorem printSplit_normal (s : Split) (hs : s.scheme ≠ [])
       rw [← this, List.drop_left]
     rw [e2]
     simp
+
+/-- with a non-empty netloc the patched serialisation is plain `urlunsplit` -/
+theorem printSplit_of_netloc (s : Split) (hn : s.netloc ≠ []) : printSplit s = urlunsplit s := by
+  unfold printSplit
+  simp only
+  rw [if_neg]
+  intro hh
+  exact hn (by simpa using hh.2.1)
 
 section
 variable {puny : Str → Str} (hpc : PunyClean puny) (quoted sf : Bool) {S rest : Str} {p : Parsed}
